@@ -16,6 +16,8 @@ mod wirekit;
 use vcore::Ctx;
 
 fn main() {
+    // a stack overflow / abort in the code under test must become a verdict, not a dead check
+    vcore::supervise("C16");
     let ctx = Ctx::from_args("C16", "model_checking");
 
     if let Some((_key, case)) = ctx.replay_case() {
